@@ -204,6 +204,14 @@ def check_vector(v):
             tot = int(bnp.compute(g.read_track(bdg, stream=True).sum()))
             return cov, tot, told
         cmp("read_intervals(stream).get_pileup / read_track(stream).sum", (v["pileup"], sum(val), list(G)), streamed_files)
+    # the start locations read from a VCF file through the genome (1-based positions in the file): the windows around them
+    vcf = os.path.join(v["_dir"], "l_%d.vcf" % os.getpid())
+    with open(vcf, "w") as fh:
+        fh.write("##fileformat=VCFv4.2\n#CHROM\tPOS\tID\tREF\tALT\tQUAL\tFILTER\tINFO\n")
+        for e in es:
+            fh.write("%s\t%d\t.\tA\tC\t.\t.\t.\n" % (names[e["c"] - 1], e["s"] + 1))
+    for f in (0, 1):
+        cmp("read_locations.get_windows", v["windows"][f], lambda: _rows(g.read_locations(vcf).get_windows(flank=f).get_data(), names), flank=f)
     # sequence under the intervals, reverse-complemented on the minus strand
     fa = os.path.join(v["_dir"], "g%s_%d.fa" % ("".join(str(x) for x in G), os.getpid()))
     if not os.path.exists(fa):
